@@ -198,24 +198,27 @@ Fixpoint gfind (g : graph) (fuel : nat) (seen : list nat) (n : nat) (x : name) :
         end
   end.
 
-(* hasTag / hasTagPrefix (expr/method.go): does the payload, one of its bases, or its
-   user type carry a credential attribute? Bases first, then the user type; NO guard.
-   [has n]: the attribute itself has the tag; [bases], [user]: where the recursion goes. *)
-Fixpoint ghastag (has : nat -> bool) (bases : nat -> list nat) (user : nat -> option nat) (fuel : nat) (n : nat) : option bool :=
+(* hasTag / hasTagPrefix (expr/method.go), TaggedAttribute and walkAttribute
+   (expr/attribute.go): look at the attribute, then at each base (walkAttribute: and each
+   reference), then at its user type, with a `seen` set shared by the whole traversal.
+   [has n]: the attribute itself answers; [bases], [user]: where the recursion goes. *)
+Fixpoint ghastag (has : nat -> bool) (bases : nat -> list nat) (user : nat -> option nat)
+                 (fuel : nat) (seen : list nat) (n : nat) : option (list nat * bool) :=
   match fuel with
   | 0 => None
   | S f =>
-      if has n then Some true
+      if mem n seen then Some (seen, false)
+      else if has n then Some (n :: seen, true)
       else
-        (fix go (l : list nat) : option bool :=
+        (fix go (s : list nat) (l : list nat) : option (list nat * bool) :=
            match l with
-           | [] => match user n with Some u => ghastag has bases user f u | None => Some false end
-           | b :: r => match ghastag has bases user f b with
+           | [] => match user n with Some u => ghastag has bases user f s u | None => Some (s, false) end
+           | b :: r => match ghastag has bases user f s b with
                        | None => None
-                       | Some true => Some true
-                       | Some false => go r
+                       | Some (s', true) => Some (s', true)
+                       | Some (s', false) => go s' r
                        end
-           end) (bases n)
+           end) (n :: seen) (bases n)
   end.
 
 Definition find_fuel (g : graph) : nat := S (List.length g).
